@@ -274,16 +274,21 @@ def emit_dtor_unwind_variant(g, fx, contract, rec):
     """X-unwind for a destructor that panics: sweep_one is emitted again with the `drop_in_place` call of its weakly-marked arm followed by
     `begin_unwind()` and an exit (the destructor has run - A-dtor: a value whose destructor was entered counts as destructed - and then
     unwinds).  Everything else of the body is kept verbatim.  The arm for unmarked objects is NOT given a variant: there the real code
-    leaves the block unlinked and allocated (a leak, not an inconsistency the collector acts on); see DESIGN 12."""
+    leaves the block unlinked and allocated (a leak, not an inconsistency the collector acts on); see DESIGN 12.  The call is found as the
+    one `drop_in_place` that is not followed by a `dealloc` (independent of how the colour cases are written)."""
     body = fx['body']
-    a = body.find('GcColor::WhiteWeak =>')
-    m = re.search(r'self\.heap\.drop_in_place\((\w+)\)', body[a:]) if a >= 0 else None
-    if not m:
-        raise Unsupported('sweep_one: no `drop_in_place` call found in a `GcColor::WhiteWeak =>` arm (needed for the destructor-unwind variant)')
+    # the destructor call that is NOT followed by a release of the same block: the value of a weakly marked object is destructed, its shell kept
+    calls = list(re.finditer(r'self\.heap\.drop_in_place\((\w+)\)', body))
+    keep = [m for k, m in enumerate(calls)
+            if 'self.heap.dealloc(' not in body[m.end():(calls[k + 1].start() if k + 1 < len(calls) else len(body))]]
+    if len(keep) != 1:
+        raise Unsupported('sweep_one: expected exactly one `drop_in_place` call that is not followed by `dealloc` (the weakly-marked case), found %d of %d'
+                          % (len(keep), len(calls)))
+    m = keep[0]
     rt = re.search(r'->\s*\(r:\s*(.+)\)\s*$', fx['sig'])
     rt = rt.group(1) if rt else '()'
     rep = '{ self.heap.drop_in_place(%s); self.begin_unwind(); return unwound::<%s>(); }' % (m.group(1), rt)
-    txt = body[:a + m.start()] + rep + body[a + m.end():]
+    txt = body[:m.start()] + rep + body[m.end():]
     c = contract['drop_weak']
     row = 'V.context.sweep_one.unwind_drop_weak'
     g.rows[row] = dict(serves=c['serves'], kind='verus', fn='context.sweep_one', text=c['ensures'])
